@@ -217,7 +217,7 @@ func (c04) Gen(rng *rand.Rand, tier string, idx int) Case {
 		n := 1
 		if mode == "cnt" || mode == "glb" {
 			n = []int{1, 2, 2, 3}[rng.Intn(4)]
-			c.Cfg = append(c.Cfg, []string{"n", strconv.Itoa(n)}, []string{"alias", strconv.Itoa(rng.Intn(2))})
+			c.Cfg = append(c.Cfg, []string{"n", strconv.Itoa(n)}, []string{"alias", strconv.Itoa(rng.Intn(8))}) // bit i: group column i is selected AS k<i> (mixes of aliased and bare columns)
 		}
 		nrows := 4 + rng.Intn(14)
 		for i := 0; i < nrows; i++ {
@@ -713,13 +713,13 @@ func c04HasNegativeID(r map[string]interface{}) bool {
 // rows (ids -1…-n, a key tuple no generated value can collide with) follow the rows; the window goroutine,
 // its output channel, the batch processor and the synchronous sink are all FIFO, so the result that
 // contains id -1 is delivered after every result of the rows before it.
-func c04SQL(mode string, arity, n int, alias bool, rows [][]string) [][]string {
+func c04SQL(mode string, arity, n int, alias int, rows [][]string) [][]string {
 	gf := c04GroupFields(arity)
 	names := make([]string, arity)
 	sel := make([]string, 0, arity+2)
 	for i, f := range gf {
 		names[i] = f
-		if alias {
+		if alias&(1<<uint(i)) != 0 {
 			names[i] = fmt.Sprintf("k%d", i)
 			sel = append(sel, f+" AS "+names[i])
 		} else {
@@ -822,7 +822,7 @@ func (c04) Exec(c Case) [][][]string {
 	defer func() { c04Computed = false }()
 	arity, _ := strconv.Atoi(c04CfgVal(c, "arity", "0"))
 	n, _ := strconv.Atoi(c04CfgVal(c, "n", "1"))
-	alias := c04CfgVal(c, "alias", "0") == "1"
+	alias, _ := strconv.Atoi(c04CfgVal(c, "alias", "0"))
 	var out [][][]string
 	var rows [][]string
 	for _, op := range c.Ops {
